@@ -27,6 +27,8 @@ let op_of c =
   | ":plus" -> let x = b c in OPlus (x, b c)
   | ":copybuf" -> let x = b c in OCopyBuf (x, nat_tok (next c))
   | ":fmt" -> let x = b c in OFormat (x, b c)
+  | ":atoi" -> OAtoI (b c)
+  | ":atou" -> OAtoU (b c)
   | t -> raise (Bad ("op " ^ t))
 let pval = function
   | VZ z -> [pz z] | VNone -> ["~"] | VB l -> [pbytes l]
